@@ -710,25 +710,31 @@ class SourceFinder(object):
             # and are constrained to be point sources
             is_flag |= flags.FIXED2PSF
         else:
-            if isnegative:
-                # the summit should be able to include all pixels within
-                # the island not just those above innerclip
-                kappa_sigma = np.where(
+            # islands are found on abs(snr) so they can hold pixels of both
+            # signs: collect the negative and the positive summits
+            # the summit should be able to include all pixels within
+            # the island not just those above innerclip
+            summits = []
+            for kappa_sigma in (
+                np.where(
                     curve > 0.5,
                     np.where(data + outerclip * rmsimg < 0, data, np.nan),
                     np.nan,
-                )
-            else:
-                kappa_sigma = np.where(
+                ),
+                np.where(
                     -1 * curve > 0.5,
                     np.where(data - outerclip * rmsimg > 0, data, np.nan),
                     np.nan,
+                ),
+            ):
+                if not np.any(np.isfinite(kappa_sigma)):
+                    continue
+                summits.extend(
+                    self._gen_flood_wrap(
+                        kappa_sigma, np.ones(kappa_sigma.shape), 0,
+                        domask=False
+                    )
                 )
-            summits = list(
-                self._gen_flood_wrap(
-                    kappa_sigma, np.ones(kappa_sigma.shape), 0, domask=False
-                )
-            )
 
         params = lmfit.Parameters()
         i = 0
@@ -753,6 +759,9 @@ class SourceFinder(object):
                     )
                 )
             try:
+                # the sign of this summit (not of the island as a whole)
+                if np.any(np.isfinite(summit)):
+                    isnegative = np.nanmax(summit) < 0
                 if isnegative:
                     amp = np.nanmin(summit)
                     xpeak, ypeak = np.unravel_index(
